@@ -162,3 +162,19 @@ def flag(rng, b):
 def intlike(rng, k):
     """an integer option as python int / numpy int64 / numpy int32"""
     return [int(k), np.int64(k), np.int32(k)][int(rng.integers(3))]
+
+
+def not_constant(a):
+    """make sure the series is not constant (the properties about peaks quantify over non-constant series): if it is, the
+    last sample is moved to a value that is DIFFERENT in the container's own type (x + 1 is absorbed at 1e12 in float32)"""
+    if isinstance(a, list):
+        if all(v == a[0] for v in a):
+            a[-1] = a[0] + max(1.0, abs(a[0]))
+        return a
+    if len(a) and np.all(a == a[0]):
+        if a.dtype.kind == "f":
+            step = max(abs(float(a[0])), 1.0)
+            a[-1] = a.dtype.type(float(a[0]) + step) if np.isfinite(float(a[0]) + step) else a.dtype.type(float(a[0]) / 2)
+        else:
+            a[-1] = a[0] - 1 if a[0] > 0 else a[0] + 1
+    return a
